@@ -5,6 +5,8 @@
 //       eio/enospc: return -1 with that errno (and keep failing afterwards for write)
 //       short     : transfer half of the request once, then -1/ENOSPC on later writes (read: then EOF)
 //       eintr     : fail once with EINTR, then behave normally (a correct tool must NOT fail)
+//       burst     : write only - the k-th call takes a third of the request, the next one half of its request, no
+//                   error at all (a pipe that takes what fits); a correct tool must NOT fail and must lose nothing
 //       zero      : getrandom only - succeed but deliver nothing (treated as failure: -1/EIO)
 //   SHIM_LOG  = file     append one line per intercepted call: "op fd len -> ret"
 #define _GNU_SOURCE
@@ -69,6 +71,13 @@ ssize_t write(int fd, const void *buf, size_t len) {
     init();
     if (fd >= 3 && fd != g_log) {
         if (g_tripped && !strcmp(g_op, "write") && strcmp(g_kind, "eintr") != 0) { logline("write", fd, (long)len, -28); errno = ENOSPC; return -1; }
+        if (!strcmp(g_kind, "burst") && !strcmp(g_op, "write")) {
+            ++g_count;
+            if ((g_count == g_k || g_count == g_k + 1) && len > 1) {
+                size_t part = g_count == g_k ? len / 3 : len / 2; if (part == 0) part = 1;
+                ssize_t r = real_write(fd, buf, part); logline("write", fd, (long)len, (long)r); return r;
+            }
+        } else
         if (hit("write")) {
             g_tripped = 1;
             if (!strcmp(g_kind, "eintr")) { logline("write", fd, (long)len, -4); errno = EINTR; return -1; }
